@@ -1,6 +1,7 @@
 """C12 Quaternion and dual-quaternion arithmetic obeys the Hamilton algebra."""
 import numpy as np
 from symreal.api import Registry
+from .common import unitize
 from spatialmath import base, Quaternion, UnitQuaternion, DualQuaternion, UnitDualQuaternion, SE3
 from spatialmath.base import quaternions as Q
 
@@ -41,7 +42,7 @@ def _unit_quat(h, name):
     if h.sym:
         h.assume(nsq(q) == 1)
         return q
-    return q / np.linalg.norm(q)
+    return unitize(q)
 
 
 def q2r_ref(q):
@@ -143,7 +144,7 @@ def _(h):
         h.assume(nsq(a) == 1)
         h.assume(nsq(b) == 1)
     else:
-        a, b = a / np.linalg.norm(a), b / np.linalg.norm(b)
+        a, b = unitize(a), unitize(b)
     h.assume(a[0] >= 0.1)
     h.assume(b[0] >= 0.1)
     ab = qmul_ref(a, b)
@@ -269,7 +270,7 @@ def _polar(h, nlo=1e-3, nhi=1e3):
         h.sqrt_hint(n * s)
         h.sqrt_hint(phi)
     else:
-        u = u / np.linalg.norm(u)
+        u = unitize(u)
     s, c = h.sincos(phi)
     return h.arr([n * c, n * s * u[0], n * s * u[1], n * s * u[2]]), n, phi, u
 
@@ -295,7 +296,7 @@ def _(h):
         h.unit(u)
         h.sqrt_hint(phi)
     else:
-        u = u / np.linalg.norm(u)
+        u = unitize(u)
     q = h.arr([a, phi * u[0], phi * u[1], phi * u[2]])
     E = Quaternion(q).exp()
     s, c = h.sincos(phi)
